@@ -274,7 +274,7 @@ func SignTxWith(txConfig client.TxConfig, chainID string, acc *Account, seq uint
 		return nil, err
 	}
 	b.SetFeeAmount(fee)
-	b.SetGasLimit(50_000_000)
+	b.SetGasLimit(500_000_000)
 	signerData := authsign.SignerData{
 		Address:       acc.Addr().String(),
 		ChainID:       chainID,
